@@ -36,21 +36,31 @@ type v6cfg struct {
 	integrated     bool
 	depth, nodedup int
 	budget         time.Duration
+	// alpha selects the message alphabet:
+	//  "base": every message kind under the client's usual IAIDs (one CONFIRM variant)
+	//  "iaid": IAID-focused: rapid-commit SOLICIT, REQUEST, RENEW, RELEASE under the usual IAID, under a
+	//          second IAID of the same client-id, and with TWO IA options of a kind in one message
+	//  "full": everything (thorough tier)
+	alpha string
 }
 
 func v6configs(thorough bool) []v6cfg {
 	if thorough {
 		return []v6cfg{
-			{"legacy na+pd k3", 3, true, true, false, 6, 2, 3 * time.Minute},
-			{"legacy na-only k3", 3, true, false, false, 6, 0, 150 * time.Second},
-			{"legacy pd-only k3", 3, false, true, false, 6, 0, 150 * time.Second},
-			{"integrated na+pd k3", 3, true, true, true, 6, 2, 2 * time.Minute},
+			{"legacy na+pd k3", 3, true, true, false, 6, 2, 3 * time.Minute, "full"},
+			{"legacy na-only k3", 3, true, false, false, 6, 0, 150 * time.Second, "full"},
+			{"legacy pd-only k3", 3, false, true, false, 6, 0, 150 * time.Second, "full"},
+			{"integrated na+pd k3", 3, true, true, true, 6, 2, 2 * time.Minute, "full"},
+			{"legacy na+pd k2 iaid", 2, true, true, false, 7, 0, 2 * time.Minute, "iaid"},
 		}
 	}
 	return []v6cfg{
-		{"legacy na+pd k2", 2, true, true, false, 5, 2, 5 * time.Minute},
-		{"legacy pd-only k2", 2, false, true, false, 4, 0, 2 * time.Minute},
-		{"integrated na+pd k2", 2, true, true, true, 4, 2, 2 * time.Minute},
+		{"legacy na+pd k2", 2, true, true, false, 5, 2, 5 * time.Minute, "base"},
+		{"legacy na+pd k2 iaid", 2, true, true, false, 6, 2, 3 * time.Minute, "iaid"},
+		{"legacy pd-only k2", 2, false, true, false, 4, 0, 2 * time.Minute, "base"},
+		{"legacy pd-only k2 iaid", 2, false, true, false, 4, 0, 2 * time.Minute, "iaid"},
+		{"integrated na+pd k2", 2, true, true, true, 4, 2, 2 * time.Minute, "base"},
+		{"integrated na+pd k2 iaid", 2, true, true, true, 4, 0, 2 * time.Minute, "iaid"},
 	}
 }
 
@@ -63,7 +73,11 @@ type v6client struct {
 	duid         []byte
 	wantNA       bool // IA kinds of the last SOLICIT
 	wantPD       bool
-	addr, pfx    bound // bindings as told by Replies
+	addr, pfx    bound // latest bindings as told by Replies (used to resolve symbolic arguments)
+	// extra: bindings a Reply DISPLACED (a different value was bound while this one was unexpired
+	// and the client never released it): the client still holds them. Empty on a server that keeps
+	// one value per client whatever the IAID.
+	extra []bound
 	advA, advP   bound // advertised values (until = advertise time + hold)
 	everA, everP map[string]bool
 	// pinA/pinP: value of the latest ADVERTISE that was never followed by a Reply binding,
@@ -130,6 +144,15 @@ func (s *v6sys) v(kind, site, f string, a ...any) {
 	s.viols = append(s.viols, explore.Viol{Kind: kind, Site: site, Detail: fmt.Sprintf(f, a...)})
 }
 
+func (c *v6client) holdsExtra(x string, now time.Time) bool {
+	for _, e := range c.extra {
+		if e.val == x && e.live(now) {
+			return true
+		}
+	}
+	return false
+}
+
 func (b bound) live(now time.Time) bool { return b.val != "" && now.Before(b.until) }
 
 func (s *v6sys) otherAddr(me string) string {
@@ -143,37 +166,67 @@ func (s *v6sys) otherAddr(me string) string {
 
 func (s *v6sys) Ops() []string {
 	var ops []string
+	base, iaid := s.c.alpha != "iaid", s.c.alpha != "base"
+	full := s.c.alpha == "full"
 	for _, n := range s.names {
 		c := s.cl[n]
 		add := func(k string) { ops = append(ops, n+":"+k) }
-		if s.c.na {
-			add("SOL-na")
-		}
-		if s.c.pd {
-			add("SOL-pd")
-		}
-		if s.c.na && s.c.pd {
-			add("SOL-both")
+		holds := c.addr.val != "" || c.pfx.val != ""
+		if base {
+			if s.c.na {
+				add("SOL-na")
+			}
+			if s.c.pd {
+				add("SOL-pd")
+			}
+			if s.c.na && s.c.pd {
+				add("SOL-both")
+			}
+			add("REQ-other")
+			add("REQ-nosid")
+			if holds {
+				add("REBIND")
+			}
+			if c.addr.val != "" {
+				add("DECLINE")
+				if full {
+					add("CONFIRM-mine")
+				}
+			}
+			if s.otherAddr(n) != "" {
+				add("CONFIRM-other")
+			}
+			if full || s.otherAddr(n) == "" {
+				add("CONFIRM-offlink")
+			}
 		}
 		add("SOL-rapid")
 		add("REQ-ours")
-		add("REQ-other")
-		add("REQ-nosid")
-		if c.addr.val != "" || c.pfx.val != "" {
+		if holds {
 			add("RENEW")
-			add("REBIND")
 			add("RELEASE")
 		}
-		if c.addr.val != "" {
-			add("DECLINE")
-			add("CONFIRM-mine")
+		if iaid {
+			// IAID dimension: the same client-id under a second IAID, and two IA options of one
+			// kind (usual + second IAID) in one message
+			add("REQ-ours2")
+			add("REQ-ours-alt")
+			if holds {
+				add("RENEW-alt")
+			}
+			if full {
+				add("SOL-2")
+				add("SOL-rapid-alt")
+				if holds {
+					add("REBIND-alt")
+				}
+			}
 		}
-		if s.otherAddr(n) != "" {
-			add("CONFIRM-other")
-		}
-		add("CONFIRM-offlink")
 	}
-	ops = append(ops, "+60s", "+121s")
+	if base {
+		ops = append(ops, "+60s")
+	}
+	ops = append(ops, "+121s")
 	return ops
 }
 
@@ -190,16 +243,24 @@ func (s *v6sys) Apply(op string) string {
 	return s.msg(op[:i], op[i+1:])
 }
 
-func iaNA(addr string) dhcpv6.Option {
-	ia := &dhcpv6.IANA{IAID: 1}
+const (
+	iaidNA, iaidPD       = 1, 2 // the client's usual IAIDs
+	iaidNAalt, iaidPDalt = 3, 4 // a second IAID under the same client-id
+)
+
+func iaNA(addr string) dhcpv6.Option { return iaNAid(iaidNA, addr) }
+func iaPD(pfx string) dhcpv6.Option  { return iaPDid(iaidPD, pfx) }
+
+func iaNAid(iaid uint32, addr string) dhcpv6.Option {
+	ia := &dhcpv6.IANA{IAID: iaid}
 	if addr != "" {
 		ia.Options = []dhcpv6.Option{dhcpv6.MakeIAAddressOption(&dhcpv6.IAAddress{Address: net.ParseIP(addr), PreferredLifetime: v6Pref, ValidLifetime: v6Valid})}
 	}
 	return dhcpv6.MakeIANAOption(ia)
 }
 
-func iaPD(pfx string) dhcpv6.Option {
-	ia := &dhcpv6.IAPD{IAID: 2}
+func iaPDid(iaid uint32, pfx string) dhcpv6.Option {
+	ia := &dhcpv6.IAPD{IAID: iaid}
 	if pfx != "" {
 		ip, n, _ := net.ParseCIDR(pfx)
 		l, _ := n.Mask.Size()
@@ -265,36 +326,64 @@ func (s *v6sys) msg(n, kind string) string {
 	now := time.Now()
 	m := &dhcpv6.Message{Options: []dhcpv6.Option{dhcpv6.MakeClientIDOption(c.duid)}}
 	ours := dhcpv6.Option{Code: dhcpv6.OptServerID, Data: s.d.ServerDUID()}
+	idNA, idPD := uint32(iaidNA), uint32(iaidPD)
+	if strings.HasSuffix(kind, "-alt") { // same client-id, second IAID
+		kind = strings.TrimSuffix(kind, "-alt")
+		idNA, idPD = iaidNAalt, iaidPDalt
+	}
 	wantIAs := func() {
 		na, pd := c.wantNA, c.wantPD
 		if !na && !pd {
 			na, pd = s.c.na, s.c.pd
 		}
 		if na {
-			m.Options = append(m.Options, iaNA(c.advA.val))
+			m.Options = append(m.Options, iaNAid(idNA, c.advA.val))
 		}
 		if pd {
-			m.Options = append(m.Options, iaPD(c.advP.val))
+			m.Options = append(m.Options, iaPDid(idPD, c.advP.val))
 		}
 	}
 	heldIAs := func() {
 		if c.addr.val != "" {
-			m.Options = append(m.Options, iaNA(c.addr.val))
+			m.Options = append(m.Options, iaNAid(idNA, c.addr.val))
 		}
 		if c.pfx.val != "" {
-			m.Options = append(m.Options, iaPD(c.pfx.val))
+			m.Options = append(m.Options, iaPDid(idPD, c.pfx.val))
+		}
+		for _, e := range c.extra { // displaced bindings the client still holds
+			if strings.Contains(e.val, "/") {
+				m.Options = append(m.Options, iaPDid(iaidPDalt, e.val))
+			} else {
+				m.Options = append(m.Options, iaNAid(iaidNAalt, e.val))
+			}
+		}
+	}
+	twoIAs := func() { // two IA options of each configured kind (IAID usual + second) in ONE message
+		if s.c.na {
+			m.Options = append(m.Options, iaNAid(iaidNA, c.advA.val), iaNAid(iaidNAalt, ""))
+		}
+		if s.c.pd {
+			m.Options = append(m.Options, iaPDid(iaidPD, c.advP.val), iaPDid(iaidPDalt, ""))
 		}
 	}
 	switch kind {
+	case "SOL-2":
+		m.Type = dhcpv6.MsgTypeSolicit
+		c.wantNA, c.wantPD = s.c.na, s.c.pd
+		twoIAs()
+	case "REQ-ours2":
+		m.Type = dhcpv6.MsgTypeRequest
+		m.Options = append(m.Options, ours)
+		twoIAs()
 	case "SOL-na", "SOL-pd", "SOL-both", "SOL-rapid":
 		m.Type = dhcpv6.MsgTypeSolicit
 		c.wantNA = kind == "SOL-na" || ((kind == "SOL-both" || kind == "SOL-rapid") && s.c.na)
 		c.wantPD = kind == "SOL-pd" || ((kind == "SOL-both" || kind == "SOL-rapid") && s.c.pd)
 		if c.wantNA {
-			m.Options = append(m.Options, iaNA(""))
+			m.Options = append(m.Options, iaNAid(idNA, ""))
 		}
 		if c.wantPD {
-			m.Options = append(m.Options, iaPD(""))
+			m.Options = append(m.Options, iaPDid(idPD, ""))
 		}
 		if kind == "SOL-rapid" {
 			m.Options = append(m.Options, dhcpv6.Option{Code: dhcpv6.OptRapidCommit})
@@ -379,12 +468,18 @@ func (s *v6sys) msg(n, kind string) string {
 			for _, a := range addrs {
 				s.handedOut(n, site, "REPLY", "address", a.val, s.usableA)
 				s.acked(n, site, "address", a.val, preAddr)
+				if c.addr.live(now) && c.addr.val != a.val {
+					c.extra = append(c.extra, c.addr)
+				}
 				c.addr, c.advA, c.pinA = a, bound{}, ""
 				c.everA[a.val] = true
 			}
 			for _, p := range pfxs {
 				s.handedOut(n, site, "REPLY", "prefix", p.val, s.usableP)
 				s.acked(n, site, "prefix", p.val, prePfx)
+				if c.pfx.live(now) && c.pfx.val != p.val {
+					c.extra = append(c.extra, c.pfx)
+				}
 				c.pfx, c.advP, c.pinP = p, bound{}, ""
 				c.everP[p.val] = true
 			}
@@ -406,7 +501,7 @@ func (s *v6sys) msg(n, kind string) string {
 	}
 	switch m.Type {
 	case dhcpv6.MsgTypeRelease:
-		c.addr, c.pfx = bound{}, bound{} // (an advertised-only value cannot be released: pins stay)
+		c.addr, c.pfx, c.extra = bound{}, bound{}, nil // (an advertised-only value cannot be released: pins stay)
 	case dhcpv6.MsgTypeDecline:
 		if preAddr.live(now) {
 			s.declined[preAddr.val] = true
@@ -453,7 +548,7 @@ func (s *v6sys) acked(n, site, what, x string, own bound) {
 			continue
 		}
 		o := s.cl[on]
-		if (o.addr.live(now) && o.addr.val == x) || (o.pfx.live(now) && o.pfx.val == x) {
+		if (o.addr.live(now) && o.addr.val == x) || (o.pfx.live(now) && o.pfx.val == x) || o.holdsExtra(x, now) {
 			s.v("O1-ack-leased-to-other", site, "%s: Reply binds %s %s which %s holds (unexpired)", n, what, x, on)
 		}
 		if (o.advA.live(now) && o.advA.val == x) || (o.advP.live(now) && o.advP.val == x) {
@@ -471,7 +566,7 @@ func (s *v6sys) unexpired(duid, val string) bool {
 		return true
 	}
 	c, now := s.cl[n], time.Now()
-	return (c.addr.val == val && c.addr.live(now)) || (c.pfx.val == val && c.pfx.live(now))
+	return (c.addr.val == val && c.addr.live(now)) || (c.pfx.val == val && c.pfx.live(now)) || c.holdsExtra(val, now)
 }
 
 func (s *v6sys) postCheck(site string) {
@@ -509,6 +604,9 @@ func (s *v6sys) Fingerprint() string {
 	for _, n := range s.names {
 		c := s.cl[n]
 		fmt.Fprintf(&sb, "|%s:%v%v %s %s %s %s %s %s", n, c.wantNA, c.wantPD, rel(c.addr), rel(c.pfx), rel(c.advA), rel(c.advP), c.pinA, c.pinP)
+		for _, e := range c.extra {
+			sb.WriteString(" x:" + rel(e))
+		}
 	}
 	var dl []string
 	for d := range s.declined {
@@ -529,7 +627,7 @@ func (s *v6sys) Check() []explore.Viol {
 	reserved := map[string]string{}
 	for _, n := range s.names {
 		c := s.cl[n]
-		for _, b := range []bound{c.addr, c.pfx} {
+		for _, b := range append([]bound{c.addr, c.pfx}, c.extra...) {
 			if b.live(now) {
 				reserved[b.val] = "binding of " + n
 			}
